@@ -300,6 +300,14 @@ def expand(job):
             if y < 0.15:
                 from harness.drivers.c17 import rand_format
                 toks, _ = rand_format(rnd)
+                if rnd.random() < 0.35:
+                    # the year alone (no month / day / day-of-year directive next to it): for a week-date argument it is the
+                    # CALENDAR year of that day that %Y names
+                    toks = rnd.choice([[{"d": "Y", "c": 0}], [{"d": "Y", "c": 0}, {"d": "lit", "c": 32}, {"d": "X", "c": 0}],
+                                       [{"d": "lit", "c": 121}, {"d": "Y", "c": 0}, {"d": "z", "c": 0}]])
+                    wk = [f_ for f_ in forms if f_["wf"] and f_["dform"] in ("week-b", "week-e")]
+                    if wk and rnd.random() < 0.7:
+                        case["g"] = pick_g(rnd, m, wk)
                 if not any(t_["d"] == "s" for t_ in toks):
                     case["pf"] = {"kind": "strf", "toks": toks}
             elif y < 0.35:
